@@ -19,7 +19,12 @@ Open Scope Z_scope.
 
 Definition val := (option Z * Z)%type.
 Inductive operand := OLit (z : Z) | OVar (x : N) | OLab (l : N).
-Record inst := mkI { i_op : string; i_args : list operand; i_outs : list N; i_wm : bool; i_wrd : bool; i_id : Z }.
+(* i_ann: for `invoke` only, one entry per operand: Some sz = this operand is a memory argument that the callee only reads
+   (exported from the real ReadonlyMemoryArgsGlobalAnalysis, re-checked on the callee body by tools/vlib/c14c_part.py), of
+   which the callee can observe the first sz bytes (the size operand of the staging copy the front end emitted for it);
+   None = anything else.  The semantics ignores it; the hypothesis `ro_uniform` (CopySound1.v) gives it its meaning. *)
+Record inst := mkI { i_op : string; i_args : list operand; i_outs : list N; i_wm : bool; i_wrd : bool; i_id : Z;
+                     i_ann : list (option operand) }.
 Definition block := list inst.
 Definition func := list block.          (* label = index; entry = 0 *)
 
